@@ -599,7 +599,12 @@ def panic_key(lang, loc, msg):
             mm = re.match(r"\s*(?:pub(?:\([a-z]+\))?\s+)?(?:async\s+)?(?:unsafe\s+)?fn\s+([A-Za-z0-9_]+)", lines[k])
             if mm:
                 fn = mm.group(1); break
-    return "%s:%s:%s:%s" % (lang, rel, fn, text)
+    key = "%s:%s:%s:%s" % (lang, rel, fn, text)
+    if not any(mac in text for mac in PANIC_MACROS):
+        # the location names an unwrap()/expect()/index expression (or a #[track_caller] caller), not a panic macro: the
+        # line alone does not say WHAT failed, so the message (digits abstracted) is part of the class
+        key += ":" + re.sub(r"\s+", "", re.sub(r"\d+", "N", msg))[:90]
+    return key
 
 
 # ------------------------------------------------------------------------------------------ supervised filter runs
